@@ -1,0 +1,46 @@
+//go:build verif
+
+package keyvalue
+
+// Contracts for govc, the contract verifier under /verif (see /verif/DESIGN.md).
+// This file contains comments only; it adds no code under any build tag.
+
+// ---- FileRecord (assumed for store-provided records; deterministic accessors) ----
+
+//@ interface FileRecord.Data() (b blob.Blob, err error)
+//@   deterministic
+//@   ensures "result" implies(err == nil, b != nil)
+//@ interface FileRecord.ReadDirNames() (names []string, err error)
+//@   deterministic
+//@ interface FileRecord.Size() (n int64)
+//@   deterministic
+//@   pure
+//@ interface FileRecord.Mode() (m hackpadfs.FileMode)
+//@   deterministic
+//@   pure
+//@ interface FileRecord.ModTime() (t time.Time)
+//@   deterministic
+//@   pure
+//@ interface FileRecord.Sys() (v interface{})
+//@   deterministic
+//@   pure
+
+// ---- OpHandler: a handler may fail and may abort the transaction it is given; it issues no further operations ----
+
+//@ spec memCtx(txn Transaction) := txn.(*mem.transaction).ctx
+//@ spec memMu(txn Transaction) := txn.(*mem.transaction).store.mu
+//@ spec serCtx(txn Transaction) := txn.(*unsafeSerialTransaction).ctx
+
+//@ interface OpHandler.Handle(txn Transaction, result OpResult) (err error)
+//@   deterministic
+//@   noworld
+//@   modifies cancelled(memCtx(txn)), cancelled(serCtx(txn)), txn.(*mem.transaction).released, held(memMu(txn))
+//@   ensures "mem" implies(isType(txn, *mem.transaction),
+//@             (cancelled(memCtx(txn)) == old(cancelled(memCtx(txn))) && txn.(*mem.transaction).released == old(txn.(*mem.transaction).released) && held(memMu(txn)) == old(held(memMu(txn)))) ||
+//@             (cancelled(memCtx(txn)) && txn.(*mem.transaction).released && held(memMu(txn)) == (old(txn.(*mem.transaction).released) && old(held(memMu(txn))))))
+//@   ensures "serial" implies(isType(txn, *unsafeSerialTransaction), implies(old(cancelled(serCtx(txn))), cancelled(serCtx(txn))))
+//@   ensures "noop" implies(isType(self, OpHandlerFunc) && noopfn(payload(self)), err == nil &&
+//@             cancelled(memCtx(txn)) == old(cancelled(memCtx(txn))) && cancelled(serCtx(txn)) == old(cancelled(serCtx(txn))) &&
+//@             txn.(*mem.transaction).released == old(txn.(*mem.transaction).released) && held(memMu(txn)) == old(held(memMu(txn))))
+//@   ensures "other-ctx" implies(!isType(txn, *mem.transaction), cancelled(memCtx(txn)) == old(cancelled(memCtx(txn))) && held(memMu(txn)) == old(held(memMu(txn)))) &&
+//@                      implies(!isType(txn, *unsafeSerialTransaction), cancelled(serCtx(txn)) == old(cancelled(serCtx(txn))))
